@@ -3,9 +3,12 @@
 package services
 
 import (
+	"context"
+
 	"go.6river.tech/mmmbbb/actions"
 	"go.6river.tech/mmmbbb/ent"
 	"go.6river.tech/mmmbbb/grpc/pubsubpb"
+	"go.6river.tech/mmmbbb/logging"
 )
 
 // NewPublisherServerForVerif exposes the (unexported) Publisher implementation
@@ -41,4 +44,30 @@ func PruneActionForVerif(
 // harness can run it (Initialize, Start, Cleanup) against its own database.
 func NewHttpPushServiceForVerif() Service {
 	return &httpPusher{}
+}
+
+// PruneRunOnceForVerif runs one round of the registered maintenance service of
+// the given name the way the service does it (its own transaction handling
+// around the action), with the given parameters. ok is false if no such
+// service is registered.
+func PruneRunOnceForVerif(
+	ctx context.Context,
+	name string,
+	params actions.PruneCommonParams,
+	client *ent.Client,
+) (numDeleted int, err error, ok bool) {
+	for _, s := range defaultServices {
+		if ps, isPrune := s.(*pruneService); isPrune && ps.name == name {
+			run := &pruneService{
+				name:          ps.name,
+				actionbuilder: ps.actionbuilder,
+				logger:        logging.GetLogger("services/" + ps.name),
+				client:        client,
+				action:        ps.actionbuilder(params),
+			}
+			numDeleted, err = run.runOnce(ctx)
+			return numDeleted, err, true
+		}
+	}
+	return 0, nil, false
 }
